@@ -69,7 +69,7 @@ class Resolver:
             if k == "Let" and x["pat"]["k"] == "Bind" and "sub" not in x["pat"]:
                 if "Mut" in x["pat"].get("mode", ""):
                     self.mut_locals.add(x["pat"]["id"])
-                elif "init" in x:
+                elif "init" in x and strip(x["init"])["k"] != "Loop":
                     self.defs[x["pat"]["id"]] = x["init"]
                     self.lets[x["pat"]["id"]] = x
             elif k == "Loop":
@@ -390,6 +390,64 @@ def nf(n, casts=False, alias=None, res=None, _depth=0):
 FLIP = {"<": ">=", "<=": ">", ">": "<=", ">=": "<", "==": "!=", "!=": "=="}
 
 
+class _Override:
+    """a resolver view in which some locals are bound to given expressions"""
+
+    def __init__(self, base, mp):
+        self._b = base
+        self._mp = dict(mp)
+        self.alpha = getattr(base, "alpha", None)
+        self.defs = getattr(base, "defs", {})
+
+    def lookup(self, lid, at=None):
+        if lid in self._mp:
+            return self._mp[lid]
+        return self._b.lookup(lid, at)
+
+    def __getattr__(self, name):
+        return getattr(self._b, name)
+
+
+def _value_if_local(expr, res, seen, depth=0):
+    """first local reachable from expr (through resolvable definitions) whose definition is `if c { a } else { b }` used as a value"""
+    if depth > 6:
+        return None
+    for x in hirq.walk(expr):
+        if x["k"] == "Path" and "local" in x["res"] and x["res"]["local"] not in seen:
+            lid = x["res"]["local"]
+            d = res.lookup(lid, x)
+            if d is None:
+                continue
+            ds = strip(d)
+            if ds["k"] == "If" and "e" in ds:
+                return (lid, ds)
+            seen2 = seen | {lid}
+            r = _value_if_local(d, res, seen2, depth + 1)
+            if r is not None:
+                return r
+    return None
+
+
+def alternatives(expr, res, casts=True, _depth=0):
+    """[(conditions, normal form)]: the value of expr case by case, where an immutable local it depends on is defined by a value
+    `if` (`let stored = if k > imax { imax } else { k }`): one alternative per branch, with the facts of that branch"""
+    if res is None or _depth > 4:
+        return [([], nf(expr, casts, None, res))]
+    hit = _value_if_local(expr, res, set())
+    if hit is None:
+        return [([], nf(expr, casts, None, res))]
+    lid, iff = hit
+    out = []
+    for pol, br in ((True, iff["t"]), (False, iff["e"])):
+        b = br
+        while b["k"] == "Block" and all(hirq.in_log_macro(s_) for s_ in b["stmts"]) and "expr" in b:
+            b = b["expr"]
+        cs = atoms(iff["c"], pol, res=res)
+        for (c2, v) in alternatives(expr, _Override(res, {lid: b}), casts, _depth + 1):
+            out.append((cs + c2, v))
+    return out
+
+
 def nf_def(n, res, casts=True):
     """normal form of what the expression n WAS computed from: if n is an immutable local, its initialiser read at the
     position of its `let` (whatever was written since — the caller decides the ordering); otherwise nf(n)"""
@@ -454,6 +512,85 @@ def all_conditions(tree, node, stop=None, res=None):
     return out
 
 
+_NEG = {"<": ">=", "<=": ">", ">": "<=", ">=": "<", "==": "!=", "!=": "=="}
+
+
+def _blit(n):
+    n = strip(n)
+    if n["k"] == "Lit" and n.get("v") in ("true", "false"):
+        return n["v"] == "true"
+    return None
+
+
+def simplify_bool(n, neg=False, res=None, _depth=0):
+    """negation normal form of a boolean expression as a synthetic tree of `&&` / `||` over leaves: `!` is pushed to the
+    comparisons (operator flipped), `if c { A } else { B }` with boolean branches is (c && A) || (!c && B) with literal branches
+    simplified, immutable locals are looked up. Leaves that are not comparisons are wrapped in `!` when negated.
+    Returns a node, or True / False for a constant."""
+    m = strip(n)
+    k = m["k"]
+    b = _blit(m)
+    if b is not None:
+        return (not b) if neg else b
+    if res is not None and k == "Path" and "local" in m["res"] and _depth < 6:
+        d = res.lookup(m["res"]["local"], m)
+        if d is not None and str(m.get("ty", "bool")) == "bool":
+            return simplify_bool(d, neg, res, _depth + 1)
+    if k == "Unary" and m["op"] == "!":
+        return simplify_bool(m["e"], not neg, res, _depth)
+    if k == "Block" and "expr" in m and all(hirq.in_log_macro(s_) or s_["k"] == "Let" for s_ in m["stmts"]):
+        return simplify_bool(m["expr"], neg, res, _depth)
+
+    def mk(op, a, b_):
+        # constants
+        if op == "&&":
+            if a is False or b_ is False:
+                return False
+            if a is True:
+                return b_
+            if b_ is True:
+                return a
+        else:
+            if a is True or b_ is True:
+                return True
+            if a is False:
+                return b_
+            if b_ is False:
+                return a
+        return {"k": "Binary", "op": op, "l": a, "r": b_, "ty": "bool", "sp": m.get("sp")}
+    if k == "Binary" and m["op"] in ("&&", "||"):
+        op = m["op"]
+        if neg:
+            op = "||" if op == "&&" else "&&"
+        return mk(op, simplify_bool(m["l"], neg, res, _depth), simplify_bool(m["r"], neg, res, _depth))
+    if k == "If" and "e" in m:
+        # (c && A) || (!c && B), negated: (c && !A) || (!c && !B)
+        c_t, c_f = simplify_bool(m["c"], False, res, _depth), simplify_bool(m["c"], True, res, _depth)
+        a_, b_ = simplify_bool(m["t"], neg, res, _depth), simplify_bool(m["e"], neg, res, _depth)
+        if a_ is True:
+            return mk("||", c_t, b_)          # c || (!c && Y)  ==  c || Y
+        if b_ is True:
+            return mk("||", c_f, a_)          # (c && X) || !c  ==  !c || X
+        return mk("||", mk("&&", c_t, a_), mk("&&", c_f, b_))
+    if k == "Binary" and m["op"] in _NEG:
+        if not neg:
+            return m
+        out = dict(m)
+        out["op"] = _NEG[m["op"]]
+        return out
+    if not neg:
+        return m
+    return {"k": "Unary", "op": "!", "e": m, "ty": "bool", "sp": m.get("sp")}
+
+
+def control_facts(tree, node, stop=None, res=None):
+    """conditions under which `node` is reached, each as it was when evaluated: the enclosing ifs (all_conditions) and the
+    negations of earlier guard clauses `if c { return / break / continue / panic }` of the enclosing blocks. For rules that
+    ask whether a required guard controls the node (a presence check); whether the guard still holds at the node is a
+    different question (early_facts filters on intervening writes)."""
+    return all_conditions(tree, node, stop, res) + [f for (f, _line) in _early_facts_raw(tree, node, stop, res)]
+
+
 def has_cmp(items, lhs, ops, rhs):
     for it in items:
         if it[0] == "cmp" and it[1] == lhs and it[2] in ops and it[3] == rhs:
@@ -504,10 +641,10 @@ def _mutated_between(tree, lo_line, hi_line):
     return names
 
 
-def early_facts(tree, node, stop=None):
+def early_facts(tree, node, stop=None, res=None):
     """facts established by earlier `if c { diverge }` statements (early returns, asserts) in the enclosing
     blocks of `node`: the negation of c holds afterwards — unless something the fact mentions is written in between"""
-    raw = _early_facts_raw(tree, node, stop)
+    raw = _early_facts_raw(tree, node, stop, res)
     out = []
     hi = node.get("sp", [None, 10 ** 9])[1]
     for (fact, line) in raw:
@@ -519,7 +656,7 @@ def early_facts(tree, node, stop=None):
     return out
 
 
-def _early_facts_raw(tree, node, stop=None):
+def _early_facts_raw(tree, node, stop=None, res=None):
     out = []
     child = node
     for a in tree.ancestors(node):
@@ -536,7 +673,7 @@ def _early_facts_raw(tree, node, stop=None):
                     cands = list(s["stmts"]) + ([s["expr"]] if "expr" in s else [])
                 for c in cands:
                     if c["k"] == "If" and "e" not in c and _diverges(c["t"]):
-                        out.extend((f_, c["sp"][6]) for f_ in atoms(c["c"], False))
+                        out.extend((f_, c["sp"][6]) for f_ in atoms(c["c"], False, res=res))
                     elif c["k"] == "Match" and c.get("src") == "Normal" and hirq.expn(c)[1] in ("macro:assert_eq", "macro:assert_ne"):
                         # assert_eq!(a, b): match (&a, &b) { (l, r) => if !(*l == *r) { panic } }
                         tup = strip(c["e"])
